@@ -202,7 +202,11 @@ CHECKS["C05"] = {
 def _c20(cases, **kw):
     out = []
     for (k, ops, eps, lens) in cases:
-        g = {"harness": "VerifC20Cache", "params": {"k": k, "ops": ops, "eps": eps, "lens": lens, "typ": [0, 1, 2]}, "prune": 1000, "timeout_ms": 300000}
+        g = {"harness": "VerifC20Cache", "params": {"k": k, "ops": ops, "eps": eps, "lens": lens, "typ": [0, 1, 2], "mix": 0}, "prune": 1000, "timeout_ms": 300000}
+        if ops != 0:
+            # sequences with an invalidation / trim: every request asks all three duty types (cross-type interference)
+            g["params"]["typ"] = 0
+            g["params"]["mix"] = 1
         g.update(kw)
         out.append(g)
     return out
@@ -246,5 +250,25 @@ CHECKS["C09"] = {
     "assumptions": [
         "ideal threshold BLS: combining partials yields the group signature over root r of validator v exactly when every combined entry is a partial by its own map index, of v, over r, and there are at least threshold entries; anything else yields a signature that never verifies",
         "tracing/metrics/logging are no-ops",
+    ],
+}
+
+# ---------------------------------------------------------------------------------------------------------------
+_C13R = ["github.com/obolnetwork/charon/app/k1util.Sign=.vSign", "github.com/obolnetwork/charon/app/k1util.Recover=.vRecover",
+         "github.com/obolnetwork/charon/p2p.PeerIDToKey=.vPeerKey", "crypto/sha256.New=.vNewHash"]
+CHECKS["C13"] = {
+    "pkg": "./dkg/bcast",
+    "parallel": 4,
+    "quick": [{"harness": "VerifC13Bcast", "params": {"r": [1, 2]}, "redirects": _C13R}],
+    "thorough": [{"harness": "VerifC13Bcast", "params": {"r": [1, 2, 3]}, "redirects": _C13R, "cross": True, "timeout_ms": 300000}],
+    "bounds": {
+        "quick": "3 members (one faulty sender, two honest); the sender issues r<=2 signature requests to each honest member and to an instance of member 2 running ANOTHER session (message id in {two registered ids, one unregistered}, payload byte symbolic), signs two arbitrary (session, id, payload) tuples itself, then delivers one message to each honest member whose three signatures are picked symbolically from everything it holds (incl. garbage)",
+        "thorough": "r<=3, both solvers",
+    },
+    "outside": "two colluding members requesting under different peer ids (the dedup key is per requesting peer; the property quantifies over a single faulty sender); libp2p authentication of the requesting peer id; the client's retry logic; cluster sizes > 3; sha256 and secp256k1 themselves (ideal); byte-level ambiguity of the hash framing (the ideal hash is injective in the concatenated byte stream, so dropping a length prefix is only visible where field lengths differ in the harness)",
+    "assumptions": [
+        "k1util.Sign/Recover: ideal signatures (token = signer id + first 8 hash bytes); p2p.PeerIDToKey maps the three harness peer ids to their keys",
+        "sha256 = ideal injective hash of the written byte stream; anypb UnmarshalNew = injective unwrap",
+        "the faulty sender can only use signatures it obtained through signature requests, its own signatures and garbage",
     ],
 }
